@@ -564,7 +564,8 @@ def run_crash(ctx, runs, steps, profile="crash", tag="crash", extra=None, recove
             f"reopening shows {shown}")
     sig = "crash:" + hashlib.sha256(json.dumps([script["cfg"], script["steps"], rec["at"], rec["case"], rec.get("inner")], sort_keys=True).encode()).hexdigest()[:16]
     payload = {"property": ctx.prop, "kind": "crash-case", "cfg": script["cfg"], "steps": script["steps"], "at": rec["at"], "case": rec["case"],
-               "depth": rec["depth"], "inner": rec.get("inner"), "what": what, "signature": sig, "profile": profile}
+               "depth": rec["depth"], "inner": rec.get("inner"), "what": what, "signature": sig, "profile": profile,
+               "driver_args": [a for a in (extra or []) if a in ("--reader", "--writer", "3")]}
     path = save_replay(ctx.prop, payload)
     raise Violation(ctx.prop, path, what, sig)
 
@@ -652,7 +653,8 @@ def replay_crash_case(ctx, replay_path):
         if not ok:
             log("replay still rejected:", json.dumps(info["record"])[:400])
         return not ok
-    sh([bin_path("crash"), "--replay", replay_path, "--out", trace], timeout=1200)
+    # (C19: the release that writes / reads is an argument of the driver)
+    sh([bin_path("crash"), "--replay", replay_path, "--out", trace] + json.load(open(replay_path)).get("driver_args", []), timeout=1200)
     ok, info = tlc_trace(ctx, "KvTrace", trace)
     if not ok:
         log("replay still rejected:", json.dumps(info["record"])[:400])
